@@ -73,7 +73,17 @@ def rule_floor_logs(col, facts, tier):
         f = facts.fn(WF + "algorithm::" + name)
         sh = mul_shift_shape(f)
         if sh is None:
-            col.bad(R, name + "-shape", "no longer `q.wrapping_mul(C)[.wrapping_sub(K)] >> S`: cannot validate (fail closed)", f.loc())
+            # another spelling of the same arithmetic (`C.wrapping_mul(q) >> S`, named constants, a checked `-`):
+            # read the function as the decision table of its single path and evaluate it on the same range
+            from rules.pathmodel import Model, Shape as _Shape, Panic as _Panic
+            try:
+                m_ = Model(f, "i32")
+                bad = [q for q in range(lo, hi + 1) if m_.value([q]) != exact(q)]
+                col.check(R, name, not bad, "%s(q) differs from the exact value for q=%s (range %d..=%d)" % (name, bad[:5], lo, hi), f.loc())
+            except _Panic as e:
+                col.bad(R, name + "-panic", "an overflow check can fire inside the argument range: %s" % e, f.loc())
+            except _Shape as e:
+                col.assumed("not-applied", "TBL-floorlog:" + name, "neither `q.wrapping_mul(C)[.wrapping_sub(K)] >> S` nor loop-free integer arithmetic (%s): not decided" % e, f.loc())
             continue
         C, K, S, A = sh
         bad = [q for q in range(lo, hi + 1) if ((q * C - K) >> S) + A != exact(q)]
